@@ -110,8 +110,8 @@ func randomAll(c *lib.Ctx) error {
 	rng := rand.New(rand.NewSource(c.Seed*7919 + 34))
 	// strings
 	var scs []StrCase
-	for i := 0; i < c.Pick(3000, 40000); i++ {
-		cs := rndChars(rng, 30, true)
+	for i := 0; i < c.Pick(1500, 30000); i++ {
+		cs := rndChars(rng, 16, true)
 		w := rng.Intn(sumW(cs) + 4)
 		c.AddEvals(1)
 		sc, pan, err := runStr(cs, w)
@@ -132,7 +132,7 @@ func randomAll(c *lib.Ctx) error {
 	// widgets
 	var cfgs []Cfg
 	sizes := map[int][]Size{}
-	for i := 0; i < c.Pick(2500, 30000); i++ {
+	for i := 0; i < c.Pick(1500, 30000); i++ {
 		cfgs = append(cfgs, rndWidget(rng))
 		for k := 0; k < 5; k++ {
 			sizes[i] = append(sizes[i], Size{2 + rng.Intn(29), 1 + rng.Intn(8)})
